@@ -25,7 +25,7 @@ func (p *IdentityProvider) attributeQueryHandleFunc(w http.ResponseWriter, r *ht
 	var attrQuery *samlp.AttributeQueryType
 	var response *samlp.ResponseType
 
-	metadata, _, err := p.GetMetadata(r.Context())
+	_, metadata, err := p.GetMetadata(r.Context())
 	if err != nil {
 		err := fmt.Errorf("failed to read idp metadata: %w", err)
 		logging.Error(err)
